@@ -20,9 +20,13 @@
       sqnorm / quad d   Squared2NormOperator / QuadraticFormOperator(DiagonalOperator d)
       gauss d N         GaussianEnergy(data d, inverse covariance DiagonalOperator N)   (carries a metric)
       const             ConstantOperator / ConstantEnergyOperator (produced by partial evaluation, C04)
+      bil m na nb T     a bilinear map with coefficient tensor T: MultiLinearEinsum (two operands), Linearization.outer
+      varcov n          VariableCovarianceGaussianEnergy (real, use_full_fisher) on (residual, inverse covariance)
   `eval` is plain evaluation (`op(field)`); `lin e ρ wm` is what `op(Linearization.make_var(ρ, wm))` returns:
   the value, the Jacobian as the composed operator (`jac` = TIMES, `adj` = ADJOINT_TIMES) and the metric,
   transcribing `Linearization.__mul__/_myadd/ptw/vdot/sum/prepend_jac/__getitem__`, `_OpChain/_OpProd/_OpSum.apply`,
+  Adjoints conjugate their coefficients (`Conj.conj`, the identity on real number types; complex mode of the driver covers
+  the holomorphic nodes only).
   `LinearOperator.__call__` (drops the metric), `ScalingOperator.__call__` (scales it), `Squared2NormOperator/QuadraticFormOperator/GaussianEnergy.apply`.
 -/
 import NiftyVerif.Gen.Pointwise
@@ -58,6 +62,11 @@ inductive Ex (K : Type) where
   | sqnorm (a : Ex K)
   | quad (d : List K) (a : Ex K)
   | gauss (data icov : List K) (a : Ex K)
+  /-- a bilinear map of two single-domain operands given by its coefficient tensor `T[o][i][j]`:
+      `MultiLinearEinsum` with two operands (any subscripts) and `Linearization.outer` -/
+  | bil (m na nb : Nat) (T : List (List (List K))) (a b : Ex K)
+  /-- `VariableCovarianceGaussianEnergy` (real, full Fisher metric) on residual `a` and inverse covariance `b` (size n) -/
+  | varcov (n : Nat) (a b : Ex K)
   /-- `ConstantOperator(output)` / `ConstantEnergyOperator(output)` (what `simplify_for_constant_input` leaves behind
       for an all-constant sub-operator): value `v` on the domain `d`, empty input domain -/
   | const (energy : Bool) (d : Dom) (v : String → Nat → K)
@@ -82,6 +91,8 @@ def Ex.dom {K : Type} : Ex K → Dom
   | .quad _ _ => [("", 1)]
   | .gauss _ _ _ => [("", 1)]
   | .const _ d _ => d
+  | .bil m _ _ _ _ _ => [("", m)]
+  | .varcov _ _ _ => [("", 1)]
 
 /-- keys read from the environment -/
 def Ex.inDom {K : Type} : Ex K → Dom
@@ -103,10 +114,12 @@ def Ex.inDom {K : Type} : Ex K → Dom
   | .quad _ a => a.inDom
   | .gauss _ _ a => a.inDom
   | .const _ _ _ => []
+  | .bil _ _ _ _ a b => a.inDom.union b.inDom
+  | .varcov _ a b => a.inDom.union b.inDom
 
 section defs
 variable {K : Type} [Zero K] [Add K] [Sub K] [Mul K] [Div K] [Neg K] [OfScientific K]
-  [LT K] [DecidableLT K] [LE K] [DecidableLE K] [Transc K]
+  [LT K] [DecidableLT K] [LE K] [DecidableLE K] [Transc K] [Conj K]
 
 /-- `Σ_{i<n} f i` -/
 def rsum (n : Nat) (f : Nat → K) : K := ((List.range n).map f).sum
@@ -120,6 +133,8 @@ def ofList (c : List K) : Nat → K := fun i => c.getD i 0
 def mask (d : Dom) (v : MVal K) : MVal K := fun k i => if d.has k i then v k i else 0
 /-- matrix entry -/
 def mat (rows : List (List K)) (i j : Nat) : K := (rows.getD i []).getD j 0
+/-- tensor entry -/
+def ten (T : List (List (List K))) (o i j : Nat) : K := ((T.getD o []).getD i []).getD j 0
 
 /-- plain evaluation `op(field)` -/
 def eval : Ex K → MVal K → MVal K
@@ -145,6 +160,14 @@ def eval : Ex K → MVal K → MVal K
         (0.5 : K) * dsum a.dom (fun k j => (eval a ρ k j - ofList data j) * (ofList icov j * (eval a ρ k j - ofList data j)))
         else 0)
   | .const _ _ v, _ => v
+  | .bil m na nb T a b, ρ =>
+      single (fun o => if o < m then
+        rsum na (fun i => rsum nb (fun j => ten T o i j * (eval a ρ "" i * eval b ρ "" j))) else 0)
+  | .varcov n a b, ρ =>
+      -- 0.5 * (r.vdot(r * i) - i.log().sum())
+      single (fun i => if i = 0 then
+        (0.5 : K) * (rsum n (fun j => eval a ρ "" j * (eval a ρ "" j * eval b ρ "" j))
+                     - rsum n (fun j => Transc.log (eval b ρ "" j))) else 0)
 
 /-- what a `Linearization` carries -/
 structure Lz (K : Type) where
@@ -180,12 +203,13 @@ def lin : Ex K → MVal K → Bool → Lz K
       { val := fun k i => la.val k i * lb.val k i,
         -- makeOp(lin1.val)(lin2.jac) + makeOp(lin2.val)(lin1.jac)
         jac := fun h k i => la.val k i * lb.jac h k i + lb.val k i * la.jac h k i,
-        adj := fun y k i => lb.adj (fun k' j => la.val k' j * y k' j) k i + la.adj (fun k' j => lb.val k' j * y k' j) k i,
+        adj := fun y k i => lb.adj (fun k' j => Conj.conj (la.val k' j) * y k' j) k i
+                 + la.adj (fun k' j => Conj.conj (lb.val k' j) * y k' j) k i,
         metric := none }
   | .scale c a, ρ, wm =>
       let la := lin a ρ wm
       { val := fun k i => c * la.val k i, jac := fun h k i => c * la.jac h k i,
-        adj := fun y => la.adj (fun k i => c * y k i),
+        adj := fun y => la.adj (fun k i => Conj.conj c * y k i),
         -- ScalingOperator.__call__: a non-negative real factor scales the metric (sandwich with sqrt), others drop it
         metric := if (0 : K) ≤ c then la.metric.map (fun M h k i => c * M h k i) else none }
   | .addc c neg a, ρ, wm =>
@@ -195,19 +219,19 @@ def lin : Ex K → MVal K → Bool → Lz K
   | .mulc d a, ρ, wm =>
       let la := lin a ρ wm
       { val := fun k i => ofList d i * la.val k i, jac := fun h k i => ofList d i * la.jac h k i,
-        adj := fun y => la.adj (fun k i => ofList d i * y k i), metric := none }
+        adj := fun y => la.adj (fun k i => Conj.conj (ofList d i) * y k i), metric := none }
   | .ptw f p a, ρ, wm =>
       let la := lin a ρ wm
       { val := mask a.dom (fun k i => f.hval p (la.val k i)),
         -- makeOp(t2)(self._jac)
         jac := fun h => mask a.dom (fun k i => f.der p (la.val k i) * la.jac h k i),
-        adj := fun y => la.adj (mask a.dom (fun k i => f.der p (la.val k i) * y k i)),
+        adj := fun y => la.adj (mask a.dom (fun k i => Conj.conj (f.der p (la.val k i)) * y k i)),
         metric := none }
   | .lin m n rows a, ρ, wm =>
       let la := lin a ρ wm
       { val := single (fun i => if i < m then rsum n (fun j => mat rows i j * la.val "" j) else 0),
         jac := fun h => single (fun i => if i < m then rsum n (fun j => mat rows i j * la.jac h "" j) else 0),
-        adj := fun y => la.adj (single (fun j => if j < n then rsum m (fun i => mat rows i j * y "" i) else 0)),
+        adj := fun y => la.adj (single (fun j => if j < n then rsum m (fun i => Conj.conj (mat rows i j) * y "" i) else 0)),
         metric := none }
   | .sum a, ρ, wm =>
       let la := lin a ρ wm
@@ -264,6 +288,37 @@ def lin : Ex K → MVal K → Bool → Lz K
       -- NullOperator Jacobian; ConstantEnergyOperator adds a NullOperator metric when one is wanted
       { val := v, jac := fun _ _ _ => 0, adj := fun _ _ _ => 0,
         metric := if energy && wm then some (fun _ _ _ => 0) else none }
+  | .bil m na nb T a b, ρ, wm =>
+      let la := lin a ρ wm; let lb := lin b ρ wm
+      { val := single (fun o => if o < m then
+                 rsum na (fun i => rsum nb (fun j => ten T o i j * (la.val "" i * lb.val "" j))) else 0),
+        -- Σ_wrt LinearEinsum(all other operands fixed) / outer: (J_a h) ⊗ b + a ⊗ (J_b h)
+        jac := fun h => single (fun o => if o < m then
+                 rsum na (fun i => rsum nb (fun j =>
+                   ten T o i j * (la.jac h "" i * lb.val "" j + la.val "" i * lb.jac h "" j))) else 0),
+        adj := fun y k i' =>
+          la.adj (single (fun i => if i < na then
+                    rsum m (fun o => rsum nb (fun j => Conj.conj (ten T o i j * lb.val "" j) * y "" o)) else 0)) k i'
+          + lb.adj (single (fun j => if j < nb then
+                    rsum m (fun o => rsum na (fun i => Conj.conj (ten T o i j * la.val "" i) * y "" o)) else 0)) k i',
+        metric := none }
+  | .varcov n a b, ρ, wm =>
+      let la := lin a ρ wm; let lb := lin b ρ wm
+      { val := single (fun i => if i = 0 then
+                 (0.5 : K) * (rsum n (fun j => la.val "" j * (la.val "" j * lb.val "" j))
+                              - rsum n (fun j => Transc.log (lb.val "" j))) else 0),
+        jac := fun h => single (fun i => if i = 0 then
+                 rsum n (fun j => (la.val "" j * lb.val "" j) * la.jac h "" j
+                   + ((0.5 : K) * (la.val "" j * la.val "" j) - (0.5 : K) / lb.val "" j) * lb.jac h "" j) else 0),
+        adj := fun y k i' =>
+          la.adj (single (fun j => if j < n then (la.val "" j * lb.val "" j) * y "" 0 else 0)) k i'
+          + lb.adj (single (fun j => if j < n then
+              ((0.5 : K) * (la.val "" j * la.val "" j) - (0.5 : K) / lb.val "" j) * y "" 0 else 0)) k i',
+        -- met = {kr: i, ki: 0.5 * i**(-2)} (use_full_fisher), sandwiched by the Jacobian of (a, b)
+        metric := if wm then some (fun h k i' =>
+            la.adj (single (fun j => if j < n then lb.val "" j * la.jac h "" j else 0)) k i'
+            + lb.adj (single (fun j => if j < n then
+                ((0.5 : K) / (lb.val "" j * lb.val "" j)) * lb.jac h "" j else 0)) k i') else none }
 
 end defs
 end NiftyVerif.Expr
